@@ -1,6 +1,7 @@
 import WhatIs.Model.Containers
 import WhatIs.Spec.Entries
 import WhatIs.Lemmas.Containers
+import WhatIs.Lemmas.Pem
 /-
   Props/C06.lean — PROPERTY THEOREMS for C06 (multi-entry containers list every entry, in order, as if
   inspected alone).  Entry lists are arbitrary (no bound on n); the per-line / per-block / per-entry library
@@ -39,6 +40,40 @@ theorem pem_blocks_all (decode : Bytes → Option (Block × Bytes)) (junk0 : Byt
       (bs.map (·.2.1)).filter (fun b => !isPgpLabel b.label) :=
   Lemmas.Containers.pem_blocks_all decode junk0 bs hj0 hj hbegin hdec
 
+/-- THE LIBRARY DECODER, CONCRETELY (H-pem is a theorem, not a hypothesis): the model of `encoding/pem.Decode`
+    (Model/Pem.lean, validated against the real decoder by the `pemdec` operation), given an RFC 7468 text — any
+    label free of LF and ':', ANY body bytes, any line width (0 = one line), LF or CRLF — followed by ANYTHING,
+    returns exactly that label and body and hands back what follows untouched. -/
+theorem pem_decode_text (label body : Bytes) (hb : body.Valid) (hl10 : 10 ∉ label) (hl58 : 58 ∉ label)
+    (w : Nat) (eol : Bytes) (heol : eol = [10] ∨ eol = [13, 10]) (rest : Bytes) :
+    Pem.decode (Spec.PemText.text label body w eol ++ rest) = some (⟨label, body⟩, rest) :=
+  Lemmas.Pem.decode_text label body hb hl10 hl58 w eol heol rest
+
+/-- the decoder's loop TERMINATES: every `continue` of `pem.Decode` resumes on a strictly shorter input, so the
+    fuel of the model (input length + 1) is never what ends it -/
+theorem pem_decode_progress (rest r : Bytes) (h : Pem.step rest = .retry r) : r.length < rest.length :=
+  Lemmas.Pem.step_retry_shorter rest r h
+
+/-- PEM BUNDLE LISTS ALL, FROM THE BYTES: junk₀ text₁ junk₁ … textₙ junkₙ — every textᵢ an RFC 7468 block with
+    its own label, body, line width and line ending, the junk free of '-' — is read by the loop of `PEMFile`
+    over the CONCRETE decoder as exactly the blocks (labelᵢ, bodyᵢ), in order, minus those labelled "PGP …". -/
+theorem pem_bundle_from_bytes (junk0 : Bytes)
+    (bs : List ((Bytes × Bytes × Nat × Bytes) × Bytes))     -- ((label, body, width, eol), junk after it)
+    (hj0 : 45 ∉ junk0) (hj : ∀ x ∈ bs, 45 ∉ x.2)
+    (hwf : ∀ x ∈ bs, x.1.2.1.Valid ∧ 10 ∉ x.1.1 ∧ 58 ∉ x.1.1 ∧ (x.1.2.2.2 = [10] ∨ x.1.2.2.2 = [13, 10])) :
+    Pem.fileBlocks (bundleText junk0 (bs.map fun x => (Spec.PemText.text x.1.1 x.1.2.1 x.1.2.2.1 x.1.2.2.2, x.2))) =
+      (bs.map fun x => (⟨x.1.1, x.1.2.1⟩ : Block)).filter (fun b => !isPgpLabel b.label) := by
+  have h := Lemmas.Containers.pem_blocks_all Pem.decode junk0
+    (bs.map fun x => (Spec.PemText.text x.1.1 x.1.2.1 x.1.2.2.1 x.1.2.2.2, (⟨x.1.1, x.1.2.1⟩ : Block), x.2)) hj0
+    (by intro y hy; obtain ⟨x, hx, rfl⟩ := List.mem_map.mp hy; exact hj x hx)
+    (by intro y hy; obtain ⟨x, _, rfl⟩ := List.mem_map.mp hy; exact Lemmas.Pem.text_begins _ _ _ _)
+    (by intro y hy rest; obtain ⟨x, hx, rfl⟩ := List.mem_map.mp hy
+        obtain ⟨h1, h2, h3, h4⟩ := hwf x hx
+        exact Lemmas.Pem.decode_text _ _ h1 h2 h3 _ _ h4 rest)
+  simp only [List.map_map] at h
+  unfold Pem.fileBlocks
+  exact h
+
 /-- a single block is described exactly as that block alone; n ≥ 2 blocks give n children, each the
     stand-alone description -/
 theorem pem_file_shape (decode : Bytes → Option (Block × Bytes)) (describe : Block → Info) (data : Bytes) :
@@ -60,4 +95,11 @@ example :
       .key (strBytes "ssh-b BBBB y")] [13, 10] true) = some [strBytes "ssh-a AAAA x", strBytes "ssh-b BBBB y"] := by
   decide
 
+-- non-vacuity of `pem_decode_text` / `pem_bundle_from_bytes`: a CRLF block wrapped at 4 and an LF block on one line
+example : Pem.decode (Spec.PemText.text (strBytes "X") [1, 2, 3, 4] 4 [13, 10] ++ strBytes "tail") =
+    some (⟨strBytes "X", [1, 2, 3, 4]⟩, strBytes "tail") := by decide
+set_option maxRecDepth 20000 in
+example : Pem.fileBlocks (strBytes "junk\n" ++ Spec.PemText.text (strBytes "A") [255] 64 [10] ++ strBytes "between" ++
+    Spec.PemText.text (strBytes "PGP MESSAGE") [7] 0 [10] ++ Spec.PemText.text (strBytes "B") [] 1 [13, 10]) =
+    [⟨strBytes "A", [255]⟩, ⟨strBytes "B", []⟩] := by decide
 end WhatIs.C06
